@@ -80,6 +80,11 @@ func (c *Ctx) guard(fnName string, sel Sel, exact bool, specs []string) bool {
 				break
 			}
 		}
+		if bad != nil && guardedByPaths(bad.Parent(), [][]Atom{{as[0]}}, ins) {
+			// not by dominance, but on no path consistent with the negated atom is a site reached
+			c.OK(rule, construct, fmt.Sprintf("%d site(s), by path evaluation", len(ins)))
+			continue
+		}
 		if bad != nil {
 			ok = false
 			c.Fail(rule, construct, InstrPos(bad), fmt.Sprintf("site `%s` is not dominated by a branch establishing %s; facts here: {%s}",
@@ -181,6 +186,10 @@ func (c *Ctx) Reject(fnName string, sel Sel, conj ...string) bool {
 		}
 	}
 	if len(cands) == 0 {
+		if _, ok := unreachableUnder(fn, as, ins); ok && atomsTested(fn, as) {
+			c.OK(rule, construct, fmt.Sprintf("%d site(s), by path evaluation", len(ins)))
+			return true
+		}
 		c.Fail(rule, construct, fn.Pos(), "no branch in this function establishes exactly {"+atomList(as)+"}; branch conditions present: "+c.condSummary(fn))
 		return false
 	}
@@ -202,6 +211,10 @@ func (c *Ctx) Reject(fnName string, sel Sel, conj ...string) bool {
 			break
 		}
 		if !ok {
+			if _, unreach := unreachableUnder(fn, as, ins); unreach && atomsTested(fn, as) {
+				c.OK(rule, construct, fmt.Sprintf("%d site(s), by path evaluation", len(ins)))
+				return true
+			}
 			c.Fail(rule, construct, InstrPos(in), why)
 			return false
 		}
@@ -628,4 +641,27 @@ func Contradicts(a, b Atom) bool {
 		return -b.L.K+a.L.K > 0
 	}
 	return false
+}
+
+// atomsTested: every atom of the assumption is decided by some branch of fn (a
+// condition over the same terms), so the path evaluation rests on tests that exist.
+func atomsTested(fn *ssa.Function, as []Atom) bool {
+	for _, a := range as {
+		found := false
+		eachInstr(fn, func(in ssa.Instruction) {
+			ifi, ok := in.(*ssa.If)
+			if !ok || found {
+				return
+			}
+			for _, f := range append(condFacts(ifi, ifi.Cond, true, 0), condFacts(ifi, ifi.Cond, false, 0)...) {
+				if SameTerms(f.Atom, a) || f.Atom.L.String() == a.L.String() {
+					found = true
+				}
+			}
+		})
+		if !found {
+			return false
+		}
+	}
+	return true
 }
